@@ -493,13 +493,14 @@ func init() {
 		Title: "Preprocessor mode writes collected declarations as equivalent, compilable Go",
 		Explanation: "Decided (the structural part): R1 collection routing: Globals.CollectNode sends import declarations to Imports, type/var/const declarations, function and method declarations (macros excluded by the receiver guard) and other declarations to Declarations, statements and expressions to Statements, `a := b` to a `var a = b` declaration, each under the option that governs it (OptCollectDeclarations / OptCollectStatements) and each appending the node itself; no route sends a form anywhere else; CollectAst visits every element of a list form; " +
 			"R2 writer: Output.WriteDeclsToStream emits the package clause from its package argument, then one loop each over imports, declarations and statements that prints every element and does nothing else, in that order, the statements inside func init() { }; " +
-			"R3 mode: under OptMacroExpandOnly Interp.CompileAst returns before Comp.Compile (nothing is compiled or run); the form handed to the collector is the result of Comp.Parse, which returns the result of MacroExpandCodewalk (so the file holds macro-expanded code). " +
+			"R3 mode: under OptMacroExpandOnly Interp.CompileAst returns before Comp.Compile (nothing is compiled or run); the form handed to the collector is the result of Comp.Parse, which returns the result of MacroExpandCodewalk (so the file holds macro-expanded code); R4 every list the collector appends to (Imports, Declarations, Statements: derived from CollectNode) is emptied before a file is evaluated by the function that writes the output file. " +
 			"Not decided: that the written file compiles and behaves like the source (depends on the printer, C25, and on the Go toolchain).",
 		Assumptions: []string{"the forked printer prints each collected node as valid Go (C25, not decided here)"},
 		Rules: []func(*Ctx){func(c *Ctx) {
 			ruleCollectRouting(c, "R1-collect-routing")
 			ruleDeclWriter(c, "R2-decl-writer")
 			rulePreprocessorMode(c, "R3-preprocessor-mode")
+			ruleCollectorReset(c, "R4-collector-reset")
 			c.Floor("R1-collect-routing", 15)
 		}},
 		Technique: "AST/type-resolved custom analysis: routing table of a type switch against an expectation table, emission-order and loop-shape check of the writer, must-return-before and def-use checks on the mode entry points",
@@ -512,7 +513,99 @@ func init() {
 			{Name: "first-list-element-skipped", File: "base/global.go", Old: "for i := 0; i < n; i++ {\n\t\t\tg.CollectAst(form.Get(i))", New: "for i := 1; i < n; i++ {\n\t\t\tg.CollectAst(form.Get(i))"},
 			{Name: "writer-skips-first-declaration", File: "base/output/write_decl.go", Old: "for _, decl := range declarations {", New: "for _, decl := range declarations[1:] {"},
 			{Name: "writer-declarations-before-imports", File: "base/output/write_decl.go", Old: "\tfor _, imp := range imports {\n\t\tfmt.Fprintln(out, o.toPrintable(\"%v\", imp))\n\t}\n", New: "\tfor _, decl := range declarations {\n\t\tfmt.Fprintln(out, o.toPrintable(\"%v\", decl))\n\t}\n\tfor _, imp := range imports {\n\t\tfmt.Fprintln(out, o.toPrintable(\"%v\", imp))\n\t}\n"},
+			{Name: "imports-leak-between-files", File: "cmd/cmd.go", Old: "\tg.Imports = nil\n\tg.Declarations = nil\n", New: "\tg.Declarations = nil\n"},
 			{Name: "define-values-dropped", File: "base/global.go", Old: "Values: node.Rhs,", New: "Values: nil,"},
 		},
 	})
+}
+
+// ruleCollectorReset (R4): every list the collector appends to (derived from CollectNode) is emptied before a file is
+// evaluated by a function that goes on to write the collected declarations, so one file's output never contains what
+// was collected from another.
+func ruleCollectorReset(c *Ctx, rule string) {
+	bpk := c.P.Pkg("base")
+	cn := c.P.Func("base.Globals.CollectNode")
+	if bpk == nil || cn == nil {
+		c.Ob(rule, "base.Globals.CollectNode", nil, false, "anchor function not found")
+		return
+	}
+	binfo := bpk.TypesInfo
+	lists := map[string]bool{}
+	ast.Inspect(cn.Body, func(nd ast.Node) bool {
+		if st, ok := nd.(ast.Stmt); ok {
+			if f, _, ok := appendTarget(binfo, st); ok {
+				lists[f] = true
+			}
+		}
+		return true
+	})
+	var names []string
+	for f := range lists {
+		names = append(names, f)
+	}
+	sort.Strings(names)
+	if len(names) < 3 {
+		c.Ob(rule, "base.Globals.CollectNode/lists", cn, false, fmt.Sprintf("collector lists found: %v, at least 3 expected", names))
+		return
+	}
+	n := 0
+	for _, pk := range c.P.All {
+		if !strings.HasPrefix(pk.PkgPath, modPath) || pk == bpk {
+			continue
+		}
+		info := pk.TypesInfo
+		for _, f := range pk.Syntax {
+			for _, d := range f.Decls {
+				fd, ok := d.(*ast.FuncDecl)
+				if !ok || fd.Body == nil {
+					continue
+				}
+				writes := token.NoPos
+				inspectCalls(fd.Body, func(call *ast.CallExpr) {
+					if fn := calleeOf(info, call); fn != nil && (fn.Name() == "WriteDeclsToFile" || fn.Name() == "WriteDeclsToStream") {
+						writes = call.Pos()
+					}
+				})
+				if writes == token.NoPos {
+					continue
+				}
+				// the evaluation call: the first call of an Eval* method before the write
+				eval := token.NoPos
+				inspectCalls(fd.Body, func(call *ast.CallExpr) {
+					if fn := calleeOf(info, call); fn != nil && strings.HasPrefix(fn.Name(), "Eval") && call.Pos() < writes && (eval == token.NoPos || call.Pos() < eval) {
+						eval = call.Pos()
+					}
+				})
+				if eval == token.NoPos {
+					continue
+				}
+				n++
+				for _, name := range names {
+					reset := false
+					ast.Inspect(fd.Body, func(nd ast.Node) bool {
+						as, ok := nd.(*ast.AssignStmt)
+						if !ok || as.Pos() > eval {
+							return true
+						}
+						for i, l := range as.Lhs {
+							if _, isF := fieldSel(info, l, name); isF {
+								r := as.Rhs[0]
+								if len(as.Rhs) == len(as.Lhs) {
+									r = as.Rhs[i]
+								}
+								if exprString(r) == "nil" {
+									reset = true
+								}
+							}
+						}
+						return true
+					})
+					c.Ob(rule, funcKey(pk, fd)+"/"+name, fd, reset, "Globals."+name+" is emptied before the file is evaluated, so the written file holds only what was collected from it")
+				}
+			}
+		}
+	}
+	if n == 0 {
+		c.Ob(rule, "writers", nil, false, "no function that evaluates a file and writes the collected declarations found: anchor missing")
+	}
 }
